@@ -69,8 +69,8 @@ func modulesFor(repo, prop string) []moduleSpec {
 	switch prop {
 	case "C20":
 		return []moduleSpec{
-			{dir: filepath.Join(repo, "plugins/device-injector"), patterns: []string{"."}},
-			{dir: filepath.Join(repo, "plugins/ulimit-adjuster"), patterns: []string{"."}},
+			{dir: filepath.Join(repo, "plugins/device-injector"), patterns: []string{".", "github.com/containerd/nri/pkg/api"}},
+			{dir: filepath.Join(repo, "plugins/ulimit-adjuster"), patterns: []string{".", "github.com/containerd/nri/pkg/api"}},
 		}
 	}
 	return []moduleSpec{main}
@@ -140,6 +140,7 @@ func cmdCheck(args []string) int {
 	var results []*engine.UnitResult
 	var resMu sync.Mutex
 	tagCount := 0
+	seenUnit := map[string]bool{} // a package loaded with several modules is verified once
 	for _, ms := range modulesFor(*repo, *prop) {
 		prog, err := engine.Load(ms.dir, ms.patterns, filepath.Join(vdir, "contracts", "extern"))
 		if err != nil {
@@ -159,6 +160,13 @@ func cmdCheck(args []string) int {
 			}
 			if *only != "" && !matchOnly(ct.Key, *only) {
 				continue
+			}
+			if ct.Pkg != nil && ct.Pkg.Name() != "main" {
+				k := ct.Pkg.Path() + "." + ct.Key
+				if seenUnit[k] {
+					continue
+				}
+				seenUnit[k] = true
 			}
 			units = append(units, unit{ct: ct})
 		}
